@@ -25,6 +25,7 @@ import (
 type Query struct {
 	Op   string `json:"op"`   // text markdown document ragmd
 	Mode int    `json:"mode"` // 0 none 1 explicit 2 standard 3 aggressive
+	Flags int   `json:"flags,omitempty"` // 1 IncludeLinks, 2 IncludeMetadata, 4 ExcludeHeaders, 8 ExcludeFooters
 }
 
 type Spec struct {
@@ -60,6 +61,7 @@ var exclVocab = []string{"nav", "navbar", "navigation", "menu", "sidebar", "foot
 var nearVocab = []string{"navy", "menuhin", "canvas", "footnote-text", "headline", "content", "article-body", "story", "sidecar", "navel"}
 
 type gen struct {
+	deep     bool // this page has lists nested ten and more levels deep
 	navDepth int
 	r      *sim.Rand
 	b      strings.Builder
@@ -197,7 +199,7 @@ func (g *gen) list(safe bool, depth, lvl int, linky bool) {
 				g.b.WriteString("<section><p>" + g.text(safe, false) + "</p></section>")
 			}
 		}
-		if lvl < 3 && g.r.Pct(25) {
+		if (lvl < 3 && g.r.Pct(25)) || (g.deep && lvl < 11 && k == 0) {
 			g.list(safe, depth, lvl+1, linky)
 		}
 		if navItem {
@@ -370,6 +372,7 @@ func makePage(seed uint64, nodes int) *page { return makePageFrom(seed, nodes, 0
 // makePageFrom numbers its tokens from start+1 (chapters of one book must not share tokens).
 func makePageFrom(seed uint64, nodes int, start int) *page {
 	g := &gen{r: sim.NewRand(seed), budget: nodes, n: start}
+	g.deep = sim.NewRand(seed^0xDEE9).Pct(5)
 	g.b.WriteString("<!DOCTYPE html><html><head><title>C19 page</title><style>body{}</style></head><body>")
 	if g.r.Pct(12) {
 		// the body's only structural child is one wrapper <div> / <main> (scripts and styles
@@ -481,6 +484,11 @@ func (p *Prop) Generate(base uint64, index int, env *sim.Env) *sim.Case {
 	n := 2 + r.Intn(15)
 	for i := 0; i < n; i++ {
 		q := Query{Op: sim.Pick(r, []string{"text", "text", "markdown", "document", "ragmd"}), Mode: r.Intn(4)}
+		if r.Pct(30) {
+			// the other switches of the options: whatever they do, an answer depends on the
+			// options of that call only
+			q.Flags = 1 + r.Intn(15)
+		}
 		if i > 0 && r.Pct(30) {
 			q = sp.History[r.Intn(len(sp.History))] // repeat an earlier query
 		}
@@ -505,7 +513,8 @@ var modes = []htmldoc.NavigationExclusionMode{htmldoc.NavigationExclusionNone, h
 var modeNames = []string{"none", "explicit", "standard", "aggressive"}
 
 func query(rd *htmldoc.Reader, q Query) (string, error) {
-	o := htmldoc.ExtractOptions{NavigationExclusion: modes[q.Mode%4]}
+	o := htmldoc.ExtractOptions{NavigationExclusion: modes[q.Mode%4], IncludeLinks: q.Flags&1 != 0, IncludeMetadata: q.Flags&2 != 0,
+		ExcludeHeaders: q.Flags&4 != 0, ExcludeFooters: q.Flags&8 != 0}
 	switch q.Op {
 	case "text":
 		return rd.TextWithOptions(o)
@@ -872,6 +881,9 @@ func histShape(h []Query) string {
 	for _, q := range h {
 		b.WriteString(q.Op[:1])
 		b.WriteString(strconv.Itoa(q.Mode))
+		if q.Flags != 0 {
+			b.WriteString("f" + strconv.Itoa(q.Flags))
+		}
 	}
 	return b.String()
 }
